@@ -196,6 +196,11 @@ class Ctx:
                 # not a lost run.
                 self.log("shard killed by signal %d: %s" % (-rc, text[-500:]))
                 parsed.append({"_crashed": -rc, "_cmd": " ".join(cmds[len(parsed)][:6]), "violations": [], "samples": []})
+            elif "ERROR: AddressSanitizer" in text:
+                # a sanitizer report (not LeakSanitizer's end-of-process summary) is an observation too
+                at = text.index("ERROR: AddressSanitizer")
+                self.log("shard stopped by AddressSanitizer: %s" % text[at:at + 1500])
+                parsed.append({"_crashed": 6, "_cmd": " ".join(cmds[len(parsed)][:6]) + " [AddressSanitizer: %s]" % text[at:at + 200].replace("\n", " "), "violations": [], "samples": []})
             else:
                 self.log("shard did not finish (rc=%s): %s" % (rc, text[-1500:]))
                 parsed.append(None)
